@@ -4,9 +4,11 @@ package corerad
 
 import (
 	"fmt"
+	"net"
 	"net/netip"
 	"os"
 	"strings"
+	"syscall"
 	"testing"
 	"time"
 
@@ -34,6 +36,22 @@ type c06Case struct {
 	// StallFor before the packet is on the wire.
 	StallFor time.Duration
 	StallIdx int
+	// Fail: the FailIdx-th multicast write (0 = the initial RA) fails with an
+	// error of kind FailKind (a full transmit queue, as the socket reports it).
+	FailKind string
+	FailIdx  int
+}
+
+func c06Err(kind string) error {
+	switch kind {
+	case "nobufs":
+		return vfake.ErrSyscallBuf
+	case "op-nobufs":
+		return &net.OpError{Op: "write", Net: "ip6:ipv6-icmp", Err: os.NewSyscallError("sendmsg", syscall.ENOBUFS)}
+	case "op-eagain":
+		return &net.OpError{Op: "write", Net: "ip6:ipv6-icmp", Err: os.NewSyscallError("sendmsg", syscall.EAGAIN)}
+	}
+	return nil
 }
 
 // c06StallCheck: with a stalled transmission the wire instants are the
@@ -121,6 +139,14 @@ func c06Check(r *vlib.Run, c *c06Case, ev []vfake.Event, runReturned bool) {
 		mc       []tx
 		trig     []tx // RS from ::
 	)
+	// a transmission the socket refused is not a transmission: it neither counts
+	// for the spacing nor satisfies a trigger
+	failed := map[string]bool{}
+	for _, e := range ev {
+		if e.Kind == "write_end" && e.Err != "" {
+			failed[fmt.Sprintf("%d/%d", e.Gen, e.ID)] = true
+		}
+	}
 	for i, e := range ev {
 		switch e.Kind {
 		case "cancel":
@@ -131,7 +157,7 @@ func c06Check(r *vlib.Run, c *c06Case, ev []vfake.Event, runReturned bool) {
 			if _, ok := gens[e.Gen]; !ok {
 				gens[e.Gen] = e.T
 			}
-			if e.Dst == vAllNodes.String() {
+			if e.Dst == vAllNodes.String() && !failed[fmt.Sprintf("%d/%d", e.Gen, e.ID)] {
 				mc = append(mc, tx{e.T, i, e.Gen, e.Life})
 			}
 		case "read_deliver":
@@ -242,6 +268,24 @@ func c06Run(t *testing.T, r *vlib.Run, c *c06Case) {
 						return c.StallFor
 					}
 					return 0
+				}
+			}
+		}
+		if c.FailKind != "" {
+			h.connSetup = func(cn *vfake.Conn) {
+				if cn.Gen != 1 {
+					return
+				}
+				k := 0
+				cn.WriteErr = func(_ int, dst netip.Addr) error {
+					if !dst.IsMulticast() {
+						return nil
+					}
+					k++
+					if k-1 == c.FailIdx {
+						return c06Err(c.FailKind)
+					}
+					return nil
 				}
 			}
 		}
@@ -386,6 +430,33 @@ func TestVerifC06(t *testing.T) {
 					}
 				}
 				rec(nil, anchor, "")
+			}
+		}
+	}
+
+	if r.Part == "det" {
+		// A scheduled multicast RA that the socket refuses (transmit queue full):
+		// whatever the daemon does about the error, the triggers it was meant to
+		// answer must still be answered within 3 s unless the interface is
+		// re-initialised first (which sends a fresh initial RA).
+		offs := []time.Duration{vMs, time.Second, 2900 * vMs, 3100 * vMs}
+		for _, idx := range []int{1, 2, 3} {
+			for _, kind := range []string{"nobufs", "op-nobufs", "op-eagain"} {
+				base := time.Duration(idx-1) * 4 * time.Second
+				for i, o := range offs {
+					for _, min := range []time.Duration{0, 20 * time.Second} {
+						max := 4 * time.Second
+						if min != 0 {
+							max, base = 30*time.Second, 0
+						}
+						c := &c06Case{ID: fmt.Sprintf("sendfail/%d/%s/%d/%v", idx, kind, i, min), Min: min, Max: max, FailKind: kind, FailIdx: idx,
+							Evs: []c06Ev{{At: base + o}, {At: base + o + 3500*vMs, Unicast: true}}, Seed: time.Duration(i*53 + idx)}
+						if r.Mine(c.ID) {
+							r.Count("send_failure_scenarios", 1)
+						}
+						run(c)
+					}
+				}
 			}
 		}
 	}
